@@ -1754,6 +1754,11 @@ def _thru(ctx, q, seqname):
             continue
         nm = cursor[0]
         new = lin(s_end.d["env"][nm])
+        pre = w.d["pre"].get(nm)
+        if isinstance(pre, Lin) and pre != Lin():
+            (v.bad if pre.is_const() else v.unknown)({"the cursor starts at": show(pre), "expected": "0 (the first element)"}, w.node)
+        elif not isinstance(pre, Lin):
+            v.unknown({"the cursor starts at": show(pre)}, w.node)
         if thru:
             runs += 1
         else:
